@@ -264,7 +264,11 @@ def w_random_long(ctx, rng, i):
             er = rng.random(nsym) < 0.2
             s.reshape(nsym, M)[er] = 0
             s[rng.random(s.size) < 0.1] = 1
+            sb = s.astype(bool)
+            keep_u8, keep_b = s.copy(), sb.copy()
             h = Pm.HDD(s, M)
+            hb = Pm.HDD(sb, M)                     # boolean ndarray: the dtype HDD converts to
+            ctx.check("hdd.input_unchanged", np.array_equal(s, keep_u8) and np.array_equal(sb, keep_b) and not np.shares_memory(hb.data, sb), "HDD modified (or aliased) its input array")
             h2 = Pm.HDD(h, M)
             ctx.check("hdd.identity", np.array_equal(h2.data, h.data), "HDD not idempotent on its own (valid) output")
             ctx.check("hdd.identity", np.array_equal(Pm.HDD(enc, M).data, enc.data), "HDD not identity on encoder output")
